@@ -10,7 +10,7 @@ def plan(t):
     q = t == 'quick'
     # full printable alphabet for short strings; longer strings over small alphabets built around the reserved characters
     # (the 23/22-step replace chains fold away for patterns whose bytes are not in the alphabet)
-    return dict(comp_lens=(1, 2), pair_lens=[(1, 1)] if q else [(1, 1), (1, 2)],
+    return dict(comp_lens=(1, 2), pair_lens=[(1, 1)],
                 small=[('%256a', 3), ('&=%3D2', 3), ('+ %2B0', 3)] if q else [('%256a', 3), ('%256a', 4), ('&=%3D26', 3), ('+ %2B0', 3), ('?#/%3F2', 3)],
                 small_pairs=[] if q else [('%2a', (2, 1))])
 
